@@ -310,6 +310,29 @@ def op_table():
 
     T["outer"] = (2, outer_gen, lambda xp, c, a, kw: xp.linalg.outer(a[0], a[1]), lambda a, kw: np.outer(a[0], a[1]))
 
+    def td_gen(rng, shapes):
+        s0, s1 = shapes
+        if not s0 or not s1:
+            return None
+        for _ in range(10):
+            k = rng.randint(1, min(len(s0), len(s1), 2))
+            ax0 = rng.sample(range(len(s0)), k)          # in any order, not necessarily ascending
+            ax1, free = [], list(range(len(s1)))
+            rng.shuffle(free)
+            for a in ax0:
+                m = next((j for j in free if s1[j] == s0[a]), None)
+                if m is None:
+                    break
+                free.remove(m)
+                ax1.append(m)
+            if len(ax1) == k:
+                neg = rng.random() < 0.3
+                return {"axes": [[a - len(s0) if neg else a for a in ax0], ax1]}
+        return None
+
+    T["tensordot"] = (2, td_gen, lambda xp, c, a, kw: xp.tensordot(a[0], a[1], axes=(tuple(kw["axes"][0]), tuple(kw["axes"][1]))),
+                      lambda a, kw: np.tensordot(a[0], a[1], axes=(tuple(kw["axes"][0]), tuple(kw["axes"][1]))))
+
     def unstack_gen(rng, shapes):
         s = shapes[0]
         cands = [i for i, n in enumerate(s) if 2 <= n <= 4]
@@ -416,7 +439,7 @@ FAMILIES = {
     "scan": ["cumulative_sum"],
     "manipulation": ["concat", "stack", "unstack_pick", "repeat", "roll", "flip", "permute_dims", "expand_dims", "squeeze", "broadcast_to", "reshape", "pad", "tril"],
     "indexing": ["index"],
-    "linalg": ["matmul", "outer"],
+    "linalg": ["matmul", "outer", "tensordot", "tensordot"],
     "rechunk": ["rechunk"],
 }
 
